@@ -50,7 +50,7 @@ def gen_synthetic(run, i):
             # value range per band: mixed sign, all negative (e.g. the offsets of a hazy source), all positive, constant
             lo, hi = [(-3, 8), (-9, -1), (2, 8), (-3, 8), (-0.5, -0.5)][(i + b) % 5] if b != 0 else (-3, 8)
             data[b] = np.array([[rng.uniform(lo, hi) for _ in range(w)] for _ in range(h)], dtype='float32')
-    pattern = ['common-border', 'band1-strip', 'per-band-holes', 'r2-nan-patches', 'band1-empty-corner'][(i // 3) % 5]
+    pattern = ['common-border', 'band1-strip', 'per-band-holes', 'r2-nan-patches', 'band1-empty-corner', 'inf-values'][(i // 3) % 6]
     data[:, :rng.randint(0, 3), :] = np.nan
     if pattern == 'band1-strip':
         c0 = 16 * rng.randint(0, max(0, w // 16 - 1))
@@ -66,6 +66,18 @@ def gen_synthetic(run, i):
             data[b, r:r + 6, c:c + 9] = np.nan
     elif pattern == 'band1-empty-corner':
         data[0, :min(h, 32), :min(w, 32)] = np.nan
+    elif pattern == 'inf-values':
+        # the nodata value of a parameter image is NaN, so +-inf are valid pixel values - and fuse writes them: +inf gains
+        # where a whole kernel of the source is 0, -inf R2 where the reference is constant over a kernel
+        for b in range(3 * n):
+            if (i + b) % 2 == 0:
+                for _ in range(rng.randint(1, 4)):
+                    data[b, rng.randrange(h), rng.randrange(w)] = np.inf if b < 2 * n else -np.inf
+        if n > 1:
+            # a band with both signs (fuse writes such R2 bands where the reference is locally constant): mean and standard deviation
+            # are NaN by definition - and in any case must not depend on the tiling or the block order (finding D20)
+            data[1, rng.randrange(h), rng.randrange(w)] = -np.inf
+            data[1, rng.randrange(h), rng.randrange(w)] = np.inf
     return dict(i=i, n=n, h=h, w=w, model=model, thresh=thresh, pattern=pattern,
                 tilings=rng.sample(range(len(TILINGS)), 2), threads=rng.choice([1, 2, 4])), data
 
@@ -98,9 +110,32 @@ def model_lines(path, model, thresh):
     return lines
 
 
+def inf_band_check(path, b, row, model, thresh):
+    """a band that holds +-inf (outside the rational model): the figures against their definitions in IEEE arithmetic"""
+    with rio.open(path) as ds:
+        a = ds.read(b + 1).astype('float64')
+        count = ds.count
+    v = a[~np.isnan(a)]
+    if not np.isinf(v).any():
+        return None
+    same = lambda x, y: (np.isnan(x) and np.isnan(y)) or x == y or (np.isfinite(x) and np.isfinite(y) and abs(x - y) <= 1e-9 * max(1.0, abs(y)))
+    with np.errstate(all='ignore'):
+        exp = dict(min=float(v.min()), max=float(v.max()), mean=float(v.sum() / v.size))
+        exp['std'] = float(np.sqrt((v * v).sum() / v.size - exp['mean'] ** 2))
+    for k_, e in exp.items():
+        if not same(float(row[k_]), e):
+            return f'band {b + 1} (holds +-inf as valid values): {k_} = {row[k_]}, over all {v.size} valid pixels it is {e}'
+    is_r2 = model == 'gain_offset' and (b >= count * 2 / 3)
+    if is_r2 and thresh is not None:
+        ip = 100.0 * float((v < thresh).sum()) / v.size
+        if 'inpaint_p' not in row or abs(row['inpaint_p'] - ip) > 1e-9:
+            return f'band {b + 1} (holds -inf as valid values): inpaint_p = {row.get("inpaint_p")}, 100*#(R2 < {thresh})/n is {ip}'
+    return None
+
+
 def run(run: common.Run):
     from homonim import ParamStats
-    n = 15 if run.quick() else 200
+    n = 18 if run.quick() else 200
     run.rule = ('synthetic parameter images (1-3 band pairs, 20..70 px, band-specific validity: first-band strips, per-band holes, '
                 'R2 NaN patches, empty corners) + images written by real fusions; each stored with 2 of 5 tilings; stats with '
                 'threads 1/2/4; every band figure vs the exact model; distinct by (image, tiling, threads)')
@@ -172,6 +207,9 @@ def run(run: common.Run):
             t = rep.split()
             mn = int(t[0])
             if mn == 0:
+                bad = inf_band_check(p, b, row, model, thresh)
+                if bad:
+                    break
                 continue
             mean, var, mmin, mmax = (Fraction(x) for x in t[1:5])
             ip = None if t[5] == '_' else Fraction(t[5])
